@@ -232,6 +232,16 @@ def run(tier):
         recs = [d(*(["x", "t", 7][: len(d.get_field_tuples())] if d is not Cc else [5, "t"]), _generated=gen.GEN) for d in order]
         cases.append(seq_case(recs, True, "seq:same-name-interleaved", "string"))
         ctx.case(("seq-same-name", len(order), order[0] is A))
+    # the same, where the versions differ in WHICH fields are bytes (the reader must decode base64 per descriptor, not per name)
+    Ab = RecordDescriptor("js/sameb", [("bytes", "f"), ("string", "tail")])
+    Bb = RecordDescriptor("js/sameb", [("bytes", "f"), ("string", "tail"), ("bytes", "extra")])
+    Cb = RecordDescriptor("js/sameb", [("string", "f"), ("string", "tail"), ("bytes", "extra"), ("bytes[]", "more")])
+    mk = {id(Ab): lambda: Ab(b"\x00\xffab", "t", _generated=gen.GEN), id(Bb): lambda: Bb(b"\x01", "t", b"\xfe\xfdxyz", _generated=gen.GEN),
+          id(Cb): lambda: Cb("aGVsbG8=", "t", b"q\x00", [b"\x00", b"abc"], _generated=gen.GEN)}
+    for order in ([Bb, Ab, Bb], [Ab, Bb, Ab, Bb], [Cb, Ab, Cb, Bb, Cb], [Bb, Cb, Bb]):
+        recs = [mk[id(d)]() for d in order]
+        cases.append(seq_case(recs, True, "seq:same-name-bytes-interleaved", "string"))
+        ctx.case(("seq-same-name-bytes", len(order), order[0].get_field_tuples()))
     ctx.sample({"case": cases[0]})
     ctx.sample({"case": cases[len(cases) // 2]})
     path = os.path.join(common.scratch("c14t"), "cases.json")
